@@ -89,7 +89,7 @@ PROPS = {
         runs=[dag_run("history", 2500, 50000, ["-maxn", "6"]), dag_run("cycle", 1500, 30000, ["-maxn", "6"]), dag_run("dag", 1000, 20000, ["-maxn", "7"])],
         coq_sample=12,
         rule="construction histories with re-added tasks (same and fresh Task objects), duplicate and self edges, nil tasks, missing ids and functions, retries before/after edges, and closed cycles; Graph.String() must equal the model's dot text, DepthFirstSort must be a valid order exactly when the model finds no cycle, Run must return (bounded wait) and every quiescent point must be maximal; non-trivial = a task is re-added, a cycle exists, or the graph has >= 2 edges",
-        assumptions=["'Run returns on every fair schedule' is established per observed run (the acceptor reaches the Return transition), not as a termination theorem"],
+        assumptions=["fairness: task functions return and other graphs release Task locks (the model's environment transitions); under it C16_progress + C16_termination give 'Run returns'"],
     ),
     "C17": dict(
         runs=[complete_run(5000, 200000), build_run(1500, 50000)],
